@@ -104,3 +104,66 @@ def _sindexbyte2(ex, args, ins, where):
 @intrinsic('bytes.IndexByte', 'internal/bytealg.IndexByte')
 def _bindexbyte2(ex, args, ins, where):
     return _index_byte_merged(ex, ex.slice_elems(args[0]), args[1])
+
+
+# ------------------------------------------------------------------ ChaCha20 (key stream = uninterpreted function of key, nonce, position)
+def _chacha_block(key, counter, nonce):
+    def rotl(v, c):
+        return ((v << c) & 0xffffffff) | (v >> (32 - c))
+
+    def qr(s, a, b, c, d):
+        s[a] = (s[a] + s[b]) & 0xffffffff; s[d] = rotl(s[d] ^ s[a], 16)
+        s[c] = (s[c] + s[d]) & 0xffffffff; s[b] = rotl(s[b] ^ s[c], 12)
+        s[a] = (s[a] + s[b]) & 0xffffffff; s[d] = rotl(s[d] ^ s[a], 8)
+        s[c] = (s[c] + s[d]) & 0xffffffff; s[b] = rotl(s[b] ^ s[c], 7)
+    import struct as _st
+    st = [0x61707865, 0x3320646e, 0x79622d32, 0x6b206574] + list(_st.unpack('<8I', key)) + [counter] + list(_st.unpack('<3I', nonce))
+    w = list(st)
+    for _ in range(10):
+        qr(w, 0, 4, 8, 12); qr(w, 1, 5, 9, 13); qr(w, 2, 6, 10, 14); qr(w, 3, 7, 11, 15)
+        qr(w, 0, 5, 10, 15); qr(w, 1, 6, 11, 12); qr(w, 2, 7, 8, 13); qr(w, 3, 4, 9, 14)
+    return _st.pack('<16I', *[(a + b) & 0xffffffff for a, b in zip(w, st)])
+
+
+@intrinsic('golang.org/x/crypto/chacha20.NewUnauthenticatedCipher')
+def _chacha_new(ex, args, ins, where):
+    key, nonce = ex.slice_elems(args[0]), ex.slice_elems(args[1])
+    if len(key) != 32:
+        return [NIL, opaque_err('chacha20: wrong key size')]
+    if len(nonce) != 12:
+        if len(nonce) == 24:
+            raise Unsupported('XChaCha20')
+        return [NIL, opaque_err('chacha20: wrong nonce size')]
+    return [Ptr(ex.new_obj(('chacha', tuple(key), tuple(nonce), 0)), ()), NIL]
+
+
+@intrinsic('(*golang.org/x/crypto/chacha20.Cipher).XORKeyStream')
+def _chacha_xor(ex, args, ins, where):
+    p, dst, src = args
+    _, key, nonce, off = ex.heap[p.obj]
+    s = ex.slice_elems(src)
+    if dst is NIL or dst.len < len(s):
+        if s:
+            raise PathEnd('panic', 'chacha20: output smaller than input ' + where)
+    out = []
+    conc = all(not is_sym(b) for b in key + nonce)
+    for i, b in enumerate(s):
+        pos = off + i
+        if conc:
+            blk = _chacha_block(bytes(key), pos // 64, bytes(nonce))
+            ks = blk[pos % 64]
+        else:
+            f = ex.uf_cache.get('chacha_ks')
+            if f is None:
+                f = ex.uf_cache['chacha_ks'] = z3.Function('chacha20_keystream', z3.BitVecSort(256), z3.BitVecSort(96),
+                                                           z3.BitVecSort(64), z3.BitVecSort(8))
+            ks = f(bytes_to_bv(list(key)), bytes_to_bv(list(nonce)), z3.BitVecVal(pos, 64))
+            ex.cut_notes.add('stub: ChaCha20 key stream is an uninterpreted function of (key, nonce, position)')
+        if is_sym(ks) or is_sym(b):
+            out.append(simp(to_bv(ks, 8) ^ to_bv(b, 8)))
+        else:
+            out.append(ks ^ b)
+    if s:
+        ex.set_slice_elems(dst, 0, out)
+    ex.heap[p.obj] = ('chacha', key, nonce, off + len(s))
+    return None
